@@ -194,6 +194,62 @@ theorem preProcessIds_err {al : Bool} {inp : List (Str × Str)} {e : Err}
         exact Or.inr h.symm
       · simp at h
 
+/-- with long headers allowed nothing is shortened and no length limit applies, so
+    `fix_record_name_id` cannot fail -/
+theorem fixRecordNameId_long_ok {taken : List Str} {r : Rec} {e : Err} :
+    fixRecordNameId true taken r ≠ .error e := by
+  intro h
+  unfold fixRecordNameId at h
+  split at h
+  · rename_i e' h1
+    unfold shortenStep at h1
+    simp at h1
+  · split at h
+    · rename_i e' h2
+      unfold stripStep at h2
+      split at h2
+      · split at h2
+        · simp only [if_true] at h2
+          unfold uniqueFallback at h2
+          split at h2
+          · rename_i e'' hg
+            have := (generateUniqueId_err hg).2
+            omega
+          · simp at h2
+        · simp at h2
+      · simp at h2
+    · simp at h
+
+theorem fixAll_long_ok : ∀ {rs : List Rec} {taken : List Str} {e : Err}, fixAll true taken rs ≠ .error e
+  | [], _, _, h => by simp [fixAll] at h
+  | r :: rs, taken, e, h => by
+    unfold fixAll at h
+    split at h
+    · rename_i e' h1
+      exact fixRecordNameId_long_ok h1
+    · split at h
+      · rename_i e' h2
+        exact fixAll_long_ok h2
+      · simp at h
+
+theorem preProcessIds_err_long {inp : List (Str × Str)} {e : Err}
+    (h : preProcessIds true inp = .error e) : e = .noName := by
+  rcases preProcessIds_err h with rfl | rfl
+  · unfold preProcessIds at h
+    split at h
+    · rename_i e' hu
+      obtain ⟨out, t, hok⟩ := uniquePass_total (mkRecs 1 inp)
+      rw [hok] at hu
+      simp at hu
+    · split at h
+      · rename_i e' hf
+        exact absurd hf fixAll_long_ok
+      · unfold checkNames at h
+        split at h
+        · simp at h
+        · simp at h
+  · rfl
+
 /-! ### bridge to the executable spec -/
 
 def toOut (r : Rec) : IdSpec.Out := ⟨r.id, r.name, r.orig⟩
